@@ -32,6 +32,9 @@ type ippGroup struct {
 	Attrs []ippAttr `json:"attrs"`
 }
 
+// ippCase.Order is the order in which the operation group's attributes are written: a permutation of the
+// indices of [charset, language, Pre..., printer-uri, user, job-name, document-format]; empty = that
+// (canonical) order.
 type ippCase struct {
 	Major, Minor byte       `json:"-"`
 	Version      [2]byte    `json:"version"`
@@ -44,6 +47,7 @@ type ippCase struct {
 	User         string     `json:"user_hex"`
 	JobName      string     `json:"job_name_hex"`
 	Format       string     `json:"format"`
+	Order        []int      `json:"op_attr_order,omitempty"`
 	Groups       []ippGroup `json:"further_groups"`
 	Doc          string     `json:"document_hex"`
 	DocLen       int        `json:"document_len"`
@@ -85,15 +89,10 @@ func (c ippCase) encode() []byte {
 	binary.Write(&b, binary.BigEndian, c.Op)
 	binary.Write(&b, binary.BigEndian, c.ReqID)
 	b.WriteByte(0x01)
-	putAttr(&b, strAttr(0x47, "attributes-charset", c.Charset))
-	putAttr(&b, strAttr(0x48, "attributes-natural-language", c.Lang))
-	for _, a := range c.Pre {
-		putAttr(&b, a)
+	items := c.opAttrs()
+	for _, i := range c.opOrder() {
+		putAttr(&b, items[i])
 	}
-	putAttr(&b, strAttr(0x45, "printer-uri", string(vlib.UnHex(c.URI))))
-	putAttr(&b, strAttr(0x42, "requesting-user-name", string(vlib.UnHex(c.User))))
-	putAttr(&b, strAttr(0x42, "job-name", string(vlib.UnHex(c.JobName))))
-	putAttr(&b, strAttr(0x49, "document-format", c.Format))
 	for _, g := range c.Groups {
 		b.WriteByte(g.Tag)
 		for _, a := range g.Attrs {
@@ -103,6 +102,62 @@ func (c ippCase) encode() []byte {
 	b.WriteByte(0x03)
 	b.Write(c.doc())
 	return b.Bytes()
+}
+
+// opAttrs lists the operation group's attributes in canonical order (charset, language, generated
+// attributes, then the four fields a print job is checked for).
+func (c ippCase) opAttrs() []ippAttr {
+	items := []ippAttr{
+		strAttr(0x47, "attributes-charset", c.Charset),
+		strAttr(0x48, "attributes-natural-language", c.Lang),
+	}
+	items = append(items, c.Pre...)
+	return append(items,
+		strAttr(0x45, "printer-uri", string(vlib.UnHex(c.URI))),
+		strAttr(0x42, "requesting-user-name", string(vlib.UnHex(c.User))),
+		strAttr(0x42, "job-name", string(vlib.UnHex(c.JobName))),
+		strAttr(0x49, "document-format", c.Format))
+}
+
+// opOrder returns the order the operation attributes are written in: c.Order when it is a permutation
+// of all of them, else the canonical order (so a shrunk / hand-edited replay always encodes every
+// attribute exactly once).
+func (c ippCase) opOrder() []int {
+	n := len(c.Pre) + 6
+	id := make([]int, n)
+	for i := range id {
+		id[i] = i
+	}
+	if len(c.Order) != n {
+		return id
+	}
+	seen := make([]bool, n)
+	for _, i := range c.Order {
+		if i < 0 || i >= n || seen[i] {
+			return id
+		}
+		seen[i] = true
+	}
+	return c.Order
+}
+
+// orderClass names where charset / language sit in the operation group (coverage label only).
+func (c ippCase) orderClass() string {
+	o := c.opOrder()
+	canonical := true
+	for i, v := range o {
+		if v != i {
+			canonical = false
+		}
+	}
+	switch {
+	case canonical:
+		return "canonical"
+	case o[0]+o[1] == 1: // charset and language still lead, the rest is rearranged
+		return "charset+language-first"
+	default:
+		return "charset/language-displaced"
+	}
 }
 
 type parsedIPP struct {
@@ -352,7 +407,35 @@ func genIPP(t *rapid.T) ippCase {
 		c.Groups = append(c.Groups, ippGroup{Tag: rapid.SampledFrom([]byte{0x02, 0x04, 0x02}).Draw(t, "gtag"), Attrs: genAttrs(t, 6)})
 	}
 	c.DocLen = rapid.OneOf(rapid.IntRange(0, 64), rapid.IntRange(0, 65536), rapid.SampledFrom([]int{0, 1, 4096, 32768, 65536})).Draw(t, "doclen")
+	c.Order = genOrder(t, len(c.Pre)+6)
 	return c
+}
+
+// genOrder draws the order of the n operation attributes (index 0 = charset, 1 = language, last four =
+// uri, user, job name, format). The property does not tie the event / reply fields to a position in the
+// group, so besides the canonical order: any permutation; charset and language each moved to a drawn
+// position (biased to the two ends) with the others keeping their relative order; a rotation.
+func genOrder(t *rapid.T, n int) []int {
+	id := make([]int, n)
+	for i := range id {
+		id[i] = i
+	}
+	switch rapid.IntRange(0, 5).Draw(t, "orderkind") {
+	case 0, 1:
+		return nil
+	case 2, 3:
+		return rapid.Permutation(id).Draw(t, "order")
+	case 4:
+		out := append([]int{}, id[2:]...)
+		for _, moved := range []int{0, 1} {
+			at := rapid.OneOf(rapid.IntRange(0, len(out)), rapid.SampledFrom([]int{0, 1, len(out) - 1, len(out)})).Draw(t, "at")
+			out = append(out[:at], append([]int{moved}, out[at:]...)...)
+		}
+		return out
+	default:
+		k := rapid.IntRange(1, n-1).Draw(t, "rot")
+		return append(append([]int{}, id[k:]...), id[:k]...)
+	}
 }
 
 func multiValued(c ippCase) bool {
@@ -403,7 +486,7 @@ func TestIPPRoundTrip(t *testing.T) {
 		}
 		return
 	}
-	r.Rule("IPP: requests from the harness's own RFC 8010 encoder - 5 operations, operation group + 0..2 further groups, 0..6 generated attributes per group of every value tag the service supports (integer, boolean, enum, rangeOfInteger, text/name/keyword/uri/charset/language/mime), 1..3 values, strings 0..300 bytes, document 0..64 KiB - posted to the real ipp service through the server, optionally cut into two segments; oracle = reply echoes version/request-id/charset/language, event carries document (and for print jobs uri, user, job name) unchanged; non-trivial = >=1 multi-valued attribute")
+	r.Rule("IPP: requests from the harness's own RFC 8010 encoder - 5 operations, operation group (attributes in canonical order charset, language, generated, uri, user, job name, format, or any permutation / charset and language moved to drawn positions / rotated) + 0..2 further groups, 0..6 generated attributes per group of every value tag the service supports (integer, boolean, enum, rangeOfInteger, text/name/keyword/uri/charset/language/mime), 1..3 values, strings 0..300 bytes, document 0..64 KiB - posted to the real ipp service through the server, optionally cut into two segments; oracle = reply echoes version/request-id/charset/language, event carries document (and for print jobs uri, user, job name) unchanged; non-trivial = >=1 multi-valued attribute")
 	r.Rapid(t, "TestIPPRoundTrip", r.Pick(2500, 30000), func(rt *rapid.T) {
 		c := genIPP(rt)
 		for _, k := range []struct {
@@ -424,6 +507,7 @@ func TestIPPRoundTrip(t *testing.T) {
 			fp = vlib.JSON(c)
 		}
 		r.Case(fmt.Sprintf("ipp/op=%04x/%s", c.Op, tagsUsed(c)), fp, func() interface{} { return c })
+		r.Label("ipp/op-attr-order="+c.orderClass(), 1)
 		if err := checkIPP(c, cut); err != nil {
 			if strings.HasPrefix(err.Error(), "infra:") {
 				rt.Fatalf("%v", err)
